@@ -320,3 +320,63 @@ Print Assumptions C19_example_soft.
 Print Assumptions C19_example_failure.
 Print Assumptions C19_example_counter.
 Print Assumptions C19_example_residue.
+
+(* ------------------------------------------------------------------------------------------
+   (9) "... and a later save of the same document to a healthy sink produces a valid file that loads to the same
+   content": composition of the residue theorems (6) / (8) with C01_full (proofs in Proofs/ComposeSink.v).
+   [with_state d st'] is the Document afterwards (same version, mark and objects; max_id and trailer = the state the
+   failed save left); [savable], [known_deep], [small_file], [same_doc], [reloaded] are C01's (Spec/SaveSpec.v), [load] /
+   [Save.save] the models C01_full is about.  [mode] is the format of the failed save, [xt] that of the re-save (either);
+   [ids] any list of recorded object numbers.  [residue_fits]: when the failed save was in the stream format it may
+   have consumed an object number, so one more must be free (max(max_id, largest number) + 3 < 2^32).
+   The section imports are local to it.
+   ------------------------------------------------------------------------------------------ *)
+From LV Require Model.Xref Model.Loader Spec.SaveSpec Proofs.ComposeReload Proofs.ComposeSink.
+Section ResaveLoads.
+  Import Model.Xref Model.Loader Spec.SaveSpec Proofs.ComposeReload Proofs.ComposeSink.
+
+  (* save_to with a sink that fails anywhere (or not at all), then save_to with a healthy sink: the file loads, and
+     what it loads to is the ORIGINAL document in the sense of property C01 (same version, same identifiers, objects
+     equal up to integral reals, trailer equal apart from cross-reference bookkeeping) *)
+  Theorem C19_resave_after_failure_loads :
+    forall wa, wa_sound wa ->
+    forall mode ids pre post d s r delivered st' xt,
+      save_with wa mode ids (top_of d) pre post (state_of d) s = (r, delivered, st') ->
+      savable d -> known_deep d = false -> residue_fits mode d ->
+      let d1 := with_state d st' in
+      small_file xt d1 ->
+      savable d1 /\ known_deep d1 = false /\
+      load (Save.so_bytes (Save.save xt d1)) = LOk (reloaded xt d1) (xtype_of xt) /\
+      same_doc d (reloaded xt d1).
+  Proof. exact resave_after_failure_loads. Qed.
+
+  (* the same after Document::save(path) through the BufWriter *)
+  Theorem C19_resave_after_failed_save_path_loads :
+    forall wa, wa_sound wa ->
+    forall cap mode ids pre post d s r file st' xt,
+      save_path_with wa cap mode ids (top_of d) pre post (state_of d) None s = (r, file, st') ->
+      savable d -> known_deep d = false -> residue_fits mode d ->
+      let d1 := with_state d st' in
+      small_file xt d1 ->
+      savable d1 /\ known_deep d1 = false /\
+      load (Save.so_bytes (Save.save xt d1)) = LOk (reloaded xt d1) (xtype_of xt) /\
+      same_doc d (reloaded xt d1).
+  Proof. exact resave_after_failed_save_path_loads. Qed.
+
+  (* non-vacuity: a stream-format save failing inside the cross-reference stream object (Ok(0) after 18 bytes) leaves
+     max_id + 1 = 5 and Type = XRef in the trailer; the hypotheses hold for a re-save in either format *)
+  Theorem C19_example_resave_loads :
+    save_with write_all XStream ex_ids (top_of cyc_doc) [bs "%PDF-1.5"; bs "objects"] [bs "xrefstream"]
+      (state_of cyc_doc) [Accept 8; Accept 7; Accept 3; Zero]
+      = (WErr EWriteZero, bs "%PDF-1.5objectsxre", ex_left) /\
+    savable cyc_doc /\ known_deep cyc_doc = false /\ residue_fits XStream cyc_doc /\
+    d_max_id (with_state cyc_doc ex_left) = 5 /\
+    dict_get (d_trailer (with_state cyc_doc ex_left)) K_Type = Some (OName (bs "XRef")) /\
+    small_file Save.XTable (with_state cyc_doc ex_left) /\ small_file Save.XStream (with_state cyc_doc ex_left) /\
+    same_doc cyc_doc (reloaded Save.XStream (with_state cyc_doc ex_left)).
+  Proof. exact ex_resave. Qed.
+End ResaveLoads.
+
+Print Assumptions C19_resave_after_failure_loads.
+Print Assumptions C19_resave_after_failed_save_path_loads.
+Print Assumptions C19_example_resave_loads.
